@@ -34,8 +34,10 @@ class FakeTime(types.ModuleType):
         return OFF_MONO + self.now
 
     def sleep(self, d):
+        if d < 0:
+            raise ValueError("sleep length must be non-negative")      # as the real time.sleep does
         self.sleeps.append(d)
-        self.now += max(d, 0.0)
+        self.now += d
 
     def __getattr__(self, name):  # everything else: the real module
         return getattr(_real, name)
